@@ -544,7 +544,8 @@ def _full_from_partial(elems: Sequence, traceless: bool, labels: Sequence[str]) 
     """
     # Convert elems to basis to have access to its handy attributes
     elems = Basis(elems)
-    elems.normalize(copy=False)
+    # Normalize out of place: elems may share memory with the caller's array
+    elems = elems / _norm(elems)
 
     if not elems.isherm:
         warn("(Some) elems not hermitian! The resulting basis also won't be.")
